@@ -7,7 +7,7 @@
    config.AllRegoVersions (manifests, then project-wide, then roots; later insert wins).
    [key_of ks] spells a key from its components, [file_of ds base] is "/d1/…/dn/base". *)
 From Coq Require Import List Permutation.
-From Regal Require Import Base.PathModel Model.Version Proofs.PathLemmas Proofs.Version.
+From Regal Require Import Base.PathModel Model.Version Proofs.PathLemmas Proofs.Version Proofs.VersionLocal.
 Import ListNotations.
 Local Open Scope nat_scope.
 
@@ -35,6 +35,31 @@ Theorem c20_iteration_order_irrelevant :
   version_from_map (keys_of m') (file_of ds base) default.
 Proof. exact lookup_order_irrelevant. Qed.
 Print Assumptions c20_iteration_order_irrelevant.
+
+(* Nothing else decides: two versions maps that agree on the configured ancestors of the file's directory
+   choose the same version for it, whatever else they contain (siblings sharing a name prefix, deeper
+   directories, unrelated roots) and in whatever order Go's map iteration visits them.  (This contains
+   c20_iteration_order_irrelevant as the case of a permutation.) *)
+Theorem c20_lookup_local :
+  forall (m m' : list (list str * version)) ds base default,
+  Forall (fun kv => good_comps (fst kv)) m -> NoDup (map fst m) ->
+  Forall (fun kv => good_comps (fst kv)) m' -> NoDup (map fst m') ->
+  good_comps ds -> ~ In SLASH base ->
+  (forall ks v, comps_prefix ks ds = true -> (In (ks, v) m <-> In (ks, v) m')) ->
+  version_from_map (keys_of m) (file_of ds base) default =
+  version_from_map (keys_of m') (file_of ds base) default.
+Proof. exact lookup_local. Qed.
+Print Assumptions c20_lookup_local.
+
+(* in particular, configuring one more directory that does not contain the file changes nothing for it *)
+Theorem c20_unrelated_key_irrelevant :
+  forall (m : list (list str * version)) k0 v0 ds base default,
+  Forall (fun kv => good_comps (fst kv)) m -> good_comps k0 -> NoDup (k0 :: map fst m) ->
+  good_comps ds -> ~ In SLASH base -> comps_prefix k0 ds = false ->
+  version_from_map (keys_of ((k0, v0) :: m)) (file_of ds base) default =
+  version_from_map (keys_of m) (file_of ds base) default.
+Proof. exact unrelated_key_irrelevant. Qed.
+Print Assumptions c20_unrelated_key_irrelevant.
 
 (* config beats manifest, root beats project-wide: what AllRegoVersions stores for a directory *)
 Theorem c20_config_beats_manifest :
